@@ -140,6 +140,7 @@ class Sim:
         self.eps["c"] = self.A["connection"].QuicConnection(
             configuration=c, session_ticket_handler=self.tickets.append)
         self._stream_count_limit(self.eps["c"])
+        self._keycap("c")
 
     def _make_server(self, odcid):
         c = self._base_config(False)
@@ -152,6 +153,27 @@ class Sim:
         self.eps["s"] = self.A["connection"].QuicConnection(
             configuration=c, original_destination_connection_id=odcid, **kw)
         self._stream_count_limit(self.eps["s"])
+        self._keycap("s")
+
+    def _keycap(self, side):
+        """cfg "keycap" (added for C20; off unless asked for, only meaningful with "keylog": False):
+        the run itself has secrets_log_file=None; the harness captures the traffic secrets by wrapping
+        the connection's TLS callback `_update_traffic_key` (an instance attribute that shadows the
+        method before `_initialize` hands it to tls.Context) and writes them, in NSS key-log form, into
+        the buffer `_feed_keys` reads for the observer.  The wrapper calls the original unchanged."""
+        if not self.cfg.get("keycap") or self.cfg["keylog"]:
+            return
+        conn, out = self.eps[side], self.keylog[side]
+        orig = conn._update_traffic_key
+        T = self.A["tls"]
+        names = {T.Epoch.ZERO_RTT: "EARLY_TRAFFIC_SECRET", T.Epoch.HANDSHAKE: "HANDSHAKE_TRAFFIC_SECRET",
+                 T.Epoch.ONE_RTT: "TRAFFIC_SECRET_0"}
+
+        def capture(direction, epoch, cipher_suite, secret):
+            sender_is_client = (side == "c") == (direction == T.Direction.ENCRYPT)
+            out.write("%s_%s %s %s\n" % ("CLIENT" if sender_is_client else "SERVER", names[epoch], "00", bytes(secret).hex()))
+            return orig(direction, epoch, cipher_suite, secret)
+        conn._update_traffic_key = capture
 
     def _stream_count_limit(self, conn):
         """aioquic has no configuration option for the stream-count limits it advertises (fixed 128);
